@@ -281,7 +281,17 @@ PROPS = {
             'MF.Props.C05.erase_parse_top',
             'MF.Props.C05.positions_placed',
             'MF.Props.C05.expr_positions',
-            'MF.Props.C05.folded_sign_span'],
+            'MF.Props.C05.folded_sign_span',
+            'MF.Props.C05.reader_understood',
+            'MF.Props.C05.offsets_match_static',
+            'MF.Props.C05.offsets_match',
+            'MF.Props.C05.offsets_tables_live',
+            'MF.Props.C05.offsets_every_kind_has_site',
+            'MF.Props.C05.offsets_out_of_scope',
+            'MF.Props.C05.reads_guarded',
+            'MF.Props.C05.offset_meaning',
+            'MF.Props.C05.chains_static',
+            'MF.Props.C05.chains_complete'],
         "channels": ['TREE', 'TYPE', 'EXPRPOS'],
         "pred": True,
         "level": 'proof',
@@ -293,13 +303,22 @@ PROPS = {
             'channel (every field and position, Pos()/End() of every node, SQL(), re-lexing flag rt, slice-and-reparse flag ex)',
             "specification MF/Spec/TypeGrammar.lean (G_T over token kinds written from the documentation, expansion of '>>' / '<>', yield of a tree, Match, wf), MF/Spec/TypeNodes.lean, "
             'MF/Spec/TypeShift.lean, MF/Spec/TypeReads.lean; lexer model MF/Model/Lexer.lean (LEX channel)',
+            'translator tools/extract/posprov.go (go/ast, purely syntactic): for every ast.K{...} literal of parser.go and every token.Pos field, the PROVENANCE of the value (which token it is the '
+            'start/end of and what the dominating guards / expect calls say that token is; a flow-sensitive abstract interpretation of one function at a time, parameters and results resolved at the '
+            'call sites of the package) is REGENERATED from /repo on every run (lean/MF/Gen/PosProv.lean); the whole-grammar table obligations O2 offsets_match / reads_guarded (every documented summand '
+            'F + n is fed by the start of an n-byte token; every position is read from a token the guards determine) and O3 chains_complete (SQL() template vs documented pos/end chains, over '
+            'Gen.SqlGo and Gen.PosDoc) are re-decided by the kernel; that a site really executes with the token its provenance names is the extracted fact, not a theorem '
+            '(MF.Props.C05.offset_meaning says what follows once it holds)',
             'no Lean model of the other productions of parser.go: the predicate runs the real entry points'],
         "assumptions": ['proved for the expression fragment only (expr_positions); the other productions of parser.go are not modelled',
             "proved for the ParseType entry point (model lexer + model parser, every accepted input): every node starts and ends on a token boundary ('>>'/'<>' counted as two one-byte "
             'tokens), is non-empty, in range, and contains its children in order without overlap (type_positions), except for the KNOWN DEFECT of a back-quoted simple type name (End two '
             'bytes short; type_positions_fails_backquoted proves the exclusion necessary); every other entry point is explored only',
+            'whole grammar, static (Task V): offsets_match, reads_guarded, chains_complete are necessary conditions decided on tables regenerated from parser.go, ast/ast.go, ast/sql.go on this run; '
+            'they make one-site slips (a wrong addend, a position read after nextToken(), an end chain that forgets or misorders a clause) deterministic failures that name the row; exceptions are '
+            'explicit tables in MF/Props/C05Offsets.lean and C05Chains.lean (assumed sites, known findings, exempt kinds) that fail the check when they go stale',
             'every other entry point and node kind: exploration of the real entry points over corpus, probes, the reference grammar G, grafts, edits, mutations and soups (partial)'],
-        "module_extra": ['MF.Props.C05Expr'],
+        "module_extra": ['MF.Props.C05Expr', 'MF.Props.C05Offsets', 'MF.Props.C05Chains'],
     },
     "C06": {
         "module": 'MF.Props.C06Types',
@@ -311,7 +330,17 @@ PROPS = {
             'MF.Props.C06.slice_lex_expr',
             'MF.Props.C06.exact_parse',
             'MF.Props.C06.expr_exact_partial',
-            'MF.Props.C06.expr_exact_inside'],
+            'MF.Props.C06.expr_exact_inside',
+            'MF.Props.C05.reader_understood',
+            'MF.Props.C05.offsets_match_static',
+            'MF.Props.C05.offsets_match',
+            'MF.Props.C05.offsets_tables_live',
+            'MF.Props.C05.offsets_every_kind_has_site',
+            'MF.Props.C05.offsets_out_of_scope',
+            'MF.Props.C05.reads_guarded',
+            'MF.Props.C05.offset_meaning',
+            'MF.Props.C05.chains_static',
+            'MF.Props.C05.chains_complete'],
         "channels": ['TREE', 'TYPE', 'EXPRPOS'],
         "pred": True,
         "level": 'proof',
@@ -323,6 +352,12 @@ PROPS = {
             'channel (every field and position, Pos()/End() of every node, SQL(), re-lexing flag rt, slice-and-reparse flag ex)',
             "specification MF/Spec/TypeGrammar.lean (G_T over token kinds written from the documentation, expansion of '>>' / '<>', yield of a tree, Match, wf), MF/Spec/TypeNodes.lean, "
             'MF/Spec/TypeShift.lean, MF/Spec/TypeReads.lean; lexer model MF/Model/Lexer.lean (LEX channel)',
+            'translator tools/extract/posprov.go (go/ast, purely syntactic): for every ast.K{...} literal of parser.go and every token.Pos field, the PROVENANCE of the value (which token it is the '
+            'start/end of and what the dominating guards / expect calls say that token is; a flow-sensitive abstract interpretation of one function at a time, parameters and results resolved at the '
+            'call sites of the package) is REGENERATED from /repo on every run (lean/MF/Gen/PosProv.lean); the whole-grammar table obligations O2 offsets_match / reads_guarded (every documented summand '
+            'F + n is fed by the start of an n-byte token; every position is read from a token the guards determine) and O3 chains_complete (SQL() template vs documented pos/end chains, over '
+            'Gen.SqlGo and Gen.PosDoc) are re-decided by the kernel; that a site really executes with the token its provenance names is the extracted fact, not a theorem '
+            '(MF.Props.C05.offset_meaning says what follows once it holds)',
             'no Lean model of the other productions of parser.go: the predicate runs the real entry points'],
         "assumptions": ["clause (a) is proved for the expression fragment only (expr_exact_partial: side condition 'no unquoted SAFE_CAST / REPLACE_FIELDS field name inside the node', always true on the "
             'compared inputs: expr_exact_inside); the Idents that are path components or selector field names are not covered (C06 is false for them: a.1, a.select)',
@@ -330,8 +365,11 @@ PROPS = {
             'token (the known defect), input[Pos:End] lexes and parses on its own to n with all positions decreased by Pos(); parser side type_exact_tokens, lexer side slice_lex (window '
             'locality of the lexer model, MF/Proofs/LexWindow.lean); StructField and Ident nodes are excluded (not types); the same statement is evaluated on the implementation for every '
             'type node of every OK request of the TYPE channel (flag ex); every other entry point is explored only',
+            'whole grammar, static (Task V): offsets_match, reads_guarded, chains_complete are necessary conditions decided on tables regenerated from parser.go, ast/ast.go, ast/sql.go on this run; '
+            'they make one-site slips (a wrong addend, a position read after nextToken(), an end chain that forgets or misorders a clause) deterministic failures that name the row; exceptions are '
+            'explicit tables in MF/Props/C05Offsets.lean and C05Chains.lean (assumed sites, known findings, exempt kinds) that fail the check when they go stale',
             'every other entry point and node kind: exploration of the real entry points over corpus, probes, the reference grammar G, grafts, edits, mutations and soups (partial)'],
-        "module_extra": ['MF.Props.C06Expr'],
+        "module_extra": ['MF.Props.C06Expr', 'MF.Props.C05Offsets', 'MF.Props.C05Chains'],
     },
     "C08": {
         "module": 'MF.Props.C08Types',
